@@ -7,6 +7,8 @@ Extracted facts:
   gets / sets / resets    number of such calls
   currentActionIsGet      `current_action()` is `return _ACTION_CONTEXT.get(None)`
   foreignUses             occurrences of the name in other non-test modules of the package
+  pairedResets            number of `.reset(x)` calls whose argument `x` is the very expression a `.set(..)` result is assigned to
+                          in the same function (a local like `parent`) or, for `self.<attr>`, in a method of the same class
 """
 import ast
 
@@ -16,7 +18,7 @@ NAME = "_ACTION_CONTEXT"
 
 def extract(repo):
     rep = {"file": FILE}
-    f = dict(isContextVar=False, otherUses=99, gets=0, sets=0, resets=0, currentActionIsGet=False, foreignUses=99)
+    f = dict(isContextVar=False, otherUses=99, gets=0, sets=0, resets=0, currentActionIsGet=False, foreignUses=99, pairedResets=0)
     try:
         tree = ast.parse((repo / FILE).read_text())
         imported = any(isinstance(n, ast.ImportFrom) and n.module == "contextvars" and any(a.name == "ContextVar" and a.asname is None for a in n.names)
@@ -41,6 +43,26 @@ def extract(repo):
                                        and isinstance(body[0].value.func.value, ast.Name) and body[0].value.func.value.id == NAME
                                        and len(body[0].value.args) == 1 and isinstance(body[0].value.args[0], ast.Constant)
                                        and body[0].value.args[0].value is None)
+        def is_call(n, attr):
+            return (isinstance(n, ast.Call) and isinstance(n.func, ast.Attribute) and isinstance(n.func.value, ast.Name)
+                    and n.func.value.id == NAME and n.func.attr == attr)
+
+        def set_targets(scope):
+            return {ast.dump(n.targets[0]).replace("Store()", "Load()") for n in ast.walk(scope)
+                    if isinstance(n, ast.Assign) and len(n.targets) == 1 and is_call(n.value, "set")}
+
+        paired = 0
+        for cls in [n for n in ast.walk(tree) if isinstance(n, ast.ClassDef)] + [tree]:
+            cls_targets = {t for t in set_targets(cls) if "Attribute" in t} if isinstance(cls, ast.ClassDef) else set()
+            fns = [n for n in (cls.body if isinstance(cls, ast.ClassDef) else tree.body) if isinstance(n, (ast.FunctionDef, ast.AsyncFunctionDef))]
+            for fn in fns:
+                local = set_targets(fn)
+                for c in ast.walk(fn):
+                    if is_call(c, "reset") and len(c.args) == 1 and not c.keywords:
+                        d = ast.dump(c.args[0])
+                        if d in local or d in cls_targets:
+                            paired += 1
+        f["pairedResets"] = paired
         foreign = 0
         for p in sorted((repo / "eliot").glob("*.py")):
             if p.name == "_action.py":
@@ -68,11 +90,12 @@ structure ActionContextSkel where
   resets : Nat
   currentActionIsGet : Bool
   foreignUses : Nat
+  pairedResets : Nat
 deriving DecidableEq, Repr
 
 def actionContext : ActionContextSkel :=
-  { isContextVar := %s, otherUses := %d, gets := %d, sets := %d, resets := %d, currentActionIsGet := %s, foreignUses := %d }
+  { isContextVar := %s, otherUses := %d, gets := %d, sets := %d, resets := %d, currentActionIsGet := %s, foreignUses := %d, pairedResets := %d }
 
 end Eliot.Generated
-""" % (FILE, b(f["isContextVar"]), f["otherUses"], f["gets"], f["sets"], f["resets"], b(f["currentActionIsGet"]), f["foreignUses"])
+""" % (FILE, b(f["isContextVar"]), f["otherUses"], f["gets"], f["sets"], f["resets"], b(f["currentActionIsGet"]), f["foreignUses"], f["pairedResets"])
     return "ActionContext.lean", src, rep
